@@ -14,20 +14,32 @@ impl Prop for C12 {
         "C12"
     }
     fn rule(&self) -> String {
-        "chains on namecoin/dogecoin mixing block versions below, equal to and above the activation version (0x10101 / 0x620102, incl. 0x2xxxxxxx and 0xffffffff); every at-or-above block carries an AuxPoW section (parent coinbase legacy/segwit of any shape, branch lengths 0,1,2,3,5,8,32,33,253, any masks); the six other coins get the same versions without a section (negative control). Every callback of the five is compared with the reference model of the chain (hash = double-SHA of the 80-byte header, same tx rows), --verify on half of the runs, under read chunking and layouts. Non-trivial = chain has both a section-bearing and a section-free block (AuxPoW coins) or a high-version block (controls); distinct by scenario hash.".into()
+        "chains on namecoin/dogecoin mixing block versions below, equal to and above the activation version (0x10101 / 0x620102, incl. 0x2xxxxxxx and 0xffffffff); every at-or-above block carries an AuxPoW section (parent coinbase legacy/segwit of any shape, branch lengths 0,1,2,3,5,8,32,33,253, any masks); the six other coins get the same versions without a section (negative control), and additionally, enumerated, the merged-mining style version (chain id << 16 | 0x100 | base) of every chain id 0..127, 0x1000, 0x2000, 0xffff. Every callback of the five is compared with the reference model of the chain (hash = double-SHA of the 80-byte header, same tx rows), --verify on half of the runs, under read chunking and layouts. Non-trivial = chain has both a section-bearing and a section-free block (AuxPoW coins) or a high-version block (controls); distinct by scenario hash.".into()
     }
     fn items(&self, tier: Tier) -> u64 {
-        if tier == Tier::Quick {
-            900
-        } else {
-            12000
-        }
+        // + merged-mining style versions (chain id << 16 | 0x100 | base) for every chain id 0..=127 and three
+        // large ones, on each of the six coins that have no AuxPoW: 6 x 131 items
+        6 * 131 + if tier == Tier::Quick { 900 } else { 12000 }
     }
     fn required_probes(&self, _tier: Tier) -> Vec<&'static str> {
-        vec!["version_equal_threshold", "version_below_threshold", "branch_len_ge_32", "segwit_parent_coinbase", "control_coin_high_version", "branch_len_253"]
+        vec!["version_equal_threshold", "version_below_threshold", "branch_len_ge_32", "segwit_parent_coinbase", "control_coin_high_version", "branch_len_253", "merged_mining_style_version_on_control_coin"]
     }
     fn explore(&self, item: u64, rng: &mut Rng, _tier: Tier, h: &mut Harness) -> Result<(), String> {
+        let chain_id: Option<u32> = if item < 6 * 131 {
+            let k = (item / 6) as u32;
+            Some(match k {
+                0..=127 => k,
+                128 => 0x1000,
+                129 => 0x2000,
+                _ => 0xffff,
+            })
+        } else {
+            None
+        };
+        let controls: Vec<&str> = COINS.iter().copied().filter(|c| coin_params(c).auxpow_version.is_none()).collect();
+        let item = item.saturating_sub(6 * 131);
         let coin = match item % 4 {
+            _ if chain_id.is_some() => controls[(h.item % 6) as usize],
             0 | 2 => "namecoin",
             1 => "dogecoin",
             _ => COINS[(item / 4 % 8) as usize],
@@ -52,7 +64,17 @@ impl Prop for C12 {
                     a.coinbase_branch.hashes = (0..253).map(|_| Bytes(rng.bytes(32))).collect();
                 }
             }
+            if let Some(id) = chain_id {
+                // what a merged-mined block of chain `id` would carry in its version field; these coins
+                // have no AuxPoW, so nothing follows the 80-byte header
+                b.version = (id << 16) | if i % 3 == 2 { 0 } else { 0x100 } | rng.range(1, 4) as u32;
+                b.auxpow = None;
+            }
             scn.chain.push(b);
+        }
+        if chain_id.is_some() {
+            scn.family = "chain-id-versions".into();
+            h.stats.probe("merged_mining_style_version_on_control_coin");
         }
         scn.layouts = vec![random_layout(nb, 3, true, rng)];
         scn.index = index_opts(rng);
